@@ -347,7 +347,7 @@ func genC16(tier, out string, sum *Summary) {
 			num := pick([]string{"1.50", "100000000000000000000000000000000000001", "1e400", "-0.0", "12345678901234567890.123456789"})
 			run("to_string(`"+num+"`)", nil, num, "number-precision")
 		case 4: // escapes the grammar leaves untouched are preserved verbatim in raw strings
-			c := pick([]string{"n", "t", "x", "u0041", "\"", "`", "a", " ", "é"})
+			c := pick([]string{"n", "t", "x", "u0041", "\"", "`", "a", " ", "é", "€", "😀", "✓", "\u00a0", "ÿ", "\U0010ffff", "0", "/", "(", "\u0080"})
 			run(`'a\`+c+`b'`, nil, `a\`+c+`b`, "raw-preserved-escape")
 			// \uXXXX escapes, incl. surrogate pairs, in quoted identifiers and JSON literals
 			doc := map[string]any{"A😀é": json.Number("7")}
